@@ -3,6 +3,7 @@ package e1front
 import (
 	"bytes"
 	"context"
+	"crypto/ecdh"
 	"crypto/tls"
 	"encoding/binary"
 	"errors"
@@ -744,6 +745,41 @@ func buildScript(seed uint64, p *ScriptPlan) (*built, error) {
 		case "ech-empty-enc":
 			e.Enc = nil // well-formed, but a first hello must carry the encapsulated key
 			o2.Exts[pair.EchIdx].Data = e.Bytes()
+		case "ech-trailing-sealed":
+			// octets behind the payload inside the extension, and a sender that seals
+			// against the associated data of a receiver which blanks the LAST
+			// len(payload) octets of the extension instead of the payload field
+			// (the ciphertext body does not depend on the associated data, only its
+			// tag does): the hello is not bound to its own octets then
+			junk := core.Bytes(r, 1+m.A%8)
+			eph, kerr := ecdh.X25519().NewPrivateKey(core.Bytes(r, 32))
+			rpub, perr2 := ecdh.X25519().NewPublicKey(sealPub)
+			if kerr != nil || perr2 != nil {
+				return nil, errSkip
+			}
+			dh, derr := eph.ECDH(rpub)
+			if derr != nil {
+				return nil, errSkip
+			}
+			mk := func() (*echbox.Sealer, error) {
+				return echbox.NewForgedSealer(dh, eph.PublicKey().Bytes(), sealPub, sealCfg, sealID, sealSuite)
+			}
+			s1, e1 := mk()
+			s2, e2 := mk()
+			if e1 != nil || e2 != nil {
+				return nil, errSkip
+			}
+			ct0, _ := s1.SealRaw(nil, encoded)
+			e.Enc, e.Payload = eph.PublicKey().Bytes(), ct0
+			blank := append(e.Bytes(), junk...)
+			for i := len(blank) - len(ct0); i < len(blank); i++ {
+				blank[i] = 0
+			}
+			o3 := o2.Clone()
+			o3.Exts[pair.EchIdx].Data = blank
+			ct, _ := s2.SealRaw(o3.Body(), encoded)
+			e.Payload = ct
+			o2.Exts[pair.EchIdx].Data = append(e.Bytes(), junk...)
 		case "ech-trailing":
 			// extra bytes inside the extension after the payload, lengths consistent
 			d := append([]byte(nil), o2.Exts[pair.EchIdx].Data...)
